@@ -171,6 +171,9 @@ def power(a, b):
             if c == -1 and k != "int":
                 r = recip(a)
                 return lift(r, k) if k == "complex" else r
+            if -4 <= c <= -2 and k != "int":
+                r = recip(power(a, V("int", z3.IntVal(-c))))
+                return lift(r, k) if k == "complex" else r
             if 0 <= c <= 4:
                 if c == 0:
                     one = V("int", z3.IntVal(1))
